@@ -111,6 +111,84 @@ fn strs(l: &[String]) -> String {
         .join(",")
 }
 
+
+// ---- C07 front-ends: the library entry points with everything a caller can observe
+fn fe_err<E: std::fmt::Display + std::fmt::Debug>(e: &E) -> String {
+    format!(
+        "{}\t{}",
+        hex(format!("{}", e).as_bytes()),
+        hex(format!("{:?}", e).as_bytes())
+    )
+}
+fn fe_stream(cfg: &TransformConfig, input: &[u8]) -> String {
+    // transform_stream into a caller-provided writer: on failure the writer keeps what was written
+    let mut rd = std::io::Cursor::new(input.to_vec());
+    let mut out: Vec<u8> = vec![];
+    match svgdx::transform_stream(&mut rd, &mut out, cfg) {
+        Ok(()) => format!("OK\t{}", hex(&out)),
+        Err(e) => format!("ERR\t{}\t{}", hex(&out), fe_err(&e)),
+    }
+}
+fn fe_str(cfg: &TransformConfig, input: &[u8]) -> String {
+    match svgdx::transform_str(String::from_utf8_lossy(input).into_owned(), cfg) {
+        Ok(s) => format!("OK\t{}", hex(s.as_bytes())),
+        Err(e) => format!("ERR\t\t{}", fe_err(&e)),
+    }
+}
+/// requests `kind:cfg:input` (kind s = transform_str, m = transform_stream) run from `n` threads at once
+fn fe_conc(n: usize, reqs: &str) -> String {
+    let reqs: Vec<(bool, TransformConfig, Vec<u8>)> = reqs
+        .split(',')
+        .filter(|x| !x.is_empty())
+        .map(|r| {
+            let p: Vec<&str> = r.split(':').collect();
+            (p[0] == "s", parse_cfg(p[1]), unhex(p[2]))
+        })
+        .collect();
+    let reqs = std::sync::Arc::new(reqs);
+    let next = std::sync::Arc::new(std::sync::atomic::AtomicUsize::new(0));
+    let barrier = std::sync::Arc::new(std::sync::Barrier::new(n));
+    let mut hs = vec![];
+    for _ in 0..n {
+        let (reqs, next, barrier) = (reqs.clone(), next.clone(), barrier.clone());
+        hs.push(
+            std::thread::Builder::new()
+                .stack_size(16 * 1024 * 1024)
+                .spawn(move || {
+                    let mut got = vec![];
+                    barrier.wait();
+                    loop {
+                        let i = next.fetch_add(1, std::sync::atomic::Ordering::SeqCst);
+                        if i >= reqs.len() {
+                            break;
+                        }
+                        let (is_str, cfg, input) = &reqs[i];
+                        let r = panic::catch_unwind(|| {
+                            if *is_str {
+                                fe_str(cfg, input)
+                            } else {
+                                fe_stream(cfg, input)
+                            }
+                        })
+                        .unwrap_or_else(|_| "PANIC".to_owned());
+                        got.push((i, r));
+                    }
+                    got
+                })
+                .unwrap(),
+        );
+    }
+    let mut all: Vec<(usize, String)> = hs.into_iter().flat_map(|h| h.join().unwrap()).collect();
+    all.sort();
+    format!(
+        "OK\t{}",
+        all.into_iter()
+            .map(|(_, r)| r.replace('\t', ":"))
+            .collect::<Vec<_>>()
+            .join(";")
+    )
+}
+
 fn handle(kind: &str, f: &[String]) -> String {
     match (kind, f.len()) {
         ("fstr", 1) => {
@@ -239,6 +317,9 @@ fn handle(kind: &str, f: &[String]) -> String {
                 Err(k) => format!("ERR\t{}\t{}", k.join(","), ps),
             }
         }
+        ("fe_str", 2) => fe_str(&parse_cfg(&f[0]), &unhex(&f[1])),
+        ("fe_stream", 2) => fe_stream(&parse_cfg(&f[0]), &unhex(&f[1])),
+        ("fe_conc", 2) => fe_conc(f[0].parse::<usize>().unwrap(), &f[1]),
         _ => "SKIP".to_owned(),
     }
 }
